@@ -151,10 +151,22 @@ func (s *Store) CACheckAndSetConfig(idx, cidx uint64, config *structs.CAConfigur
 	tx := s.db.WriteTxn(idx)
 	defer tx.Abort()
 
+	if err := s.caCheckAndSetConfigTxn(idx, cidx, tx, config); err != nil {
+		return false, err
+	}
+
+	err := tx.Commit()
+	return err == nil, err
+}
+
+// caCheckAndSetConfigTxn is the inner method of CACheckAndSetConfig. It returns
+// an error, and writes nothing, if cidx does not match the ModifyIndex of the
+// existing config.
+func (s *Store) caCheckAndSetConfigTxn(idx, cidx uint64, tx WriteTxn, config *structs.CAConfiguration) error {
 	// Check for an existing config
 	existing, err := tx.First(tableConnectCAConfig, "id")
 	if err != nil {
-		return false, fmt.Errorf("failed CA config lookup: %s", err)
+		return fmt.Errorf("failed CA config lookup: %s", err)
 	}
 
 	// If the existing index does not match the provided CAS
@@ -162,15 +174,10 @@ func (s *Store) CACheckAndSetConfig(idx, cidx uint64, config *structs.CAConfigur
 	// return early here.
 	e, ok := existing.(*structs.CAConfiguration)
 	if (ok && e.ModifyIndex != cidx) || (!ok && cidx != 0) {
-		return false, errors.Errorf("ModifyIndex did not match existing")
+		return errors.Errorf("ModifyIndex did not match existing")
 	}
 
-	if err := s.caSetConfigTxn(idx, tx, config); err != nil {
-		return false, err
-	}
-
-	err = tx.Commit()
-	return err == nil, err
+	return s.caSetConfigTxn(idx, tx, config)
 }
 
 func (s *Store) caSetConfigTxn(idx uint64, tx WriteTxn, config *structs.CAConfiguration) error {
@@ -270,6 +277,30 @@ func (s *Store) CARootSetCAS(idx, cidx uint64, rs []*structs.CARoot) (bool, erro
 
 	set, err := caRootSetCASVerdictTxn(tx, idx, cidx, rs)
 	if !set || err != nil {
+		return false, err
+	}
+
+	err = tx.Commit()
+	return err == nil, err
+}
+
+// CARootSetCASAndConfig replaces the CA roots and the CA configuration in a
+// single transaction: either both are written or neither is.
+//
+// The roots are checked against rootsIdx like in CARootSetCAS, the config is
+// checked against configIdx like in CACheckAndSetConfig. It returns false when
+// the roots index did not match and an error when the config index did not
+// match; nothing is written in either case.
+func (s *Store) CARootSetCASAndConfig(idx, rootsIdx uint64, rs []*structs.CARoot, configIdx uint64, config *structs.CAConfiguration) (bool, error) {
+	tx := s.db.WriteTxn(idx)
+	defer tx.Abort()
+
+	set, err := caRootSetCASVerdictTxn(tx, idx, rootsIdx, rs)
+	if !set || err != nil {
+		return false, err
+	}
+
+	if err := s.caCheckAndSetConfigTxn(idx, configIdx, tx, config); err != nil {
 		return false, err
 	}
 
